@@ -78,9 +78,9 @@ Section SessProofs.
           destruct (IH H) as [I1 I2]. cbn [s_tx sent sends_seq wrote fst snd] in *.
           split; [now rewrite I1|exact I2].
         * destruct (sess_run F T opn _ r) as [s2 es]. cbn in H. discriminate.
-      + destruct (sess_run F T opn s r) as [s2 es]. cbn in H. discriminate.
-      + destruct (sess_run F T opn s r) as [s2 es]. cbn in H. discriminate.
-      + destruct (sess_run F T opn s r) as [s2 es]. cbn in H. discriminate.
+      + destruct (sess_run F T opn _ r) as [s2 es]. cbn in H. discriminate.
+      + destruct (sess_run F T opn _ r) as [s2 es]. cbn in H. discriminate.
+      + destruct (sess_run F T opn _ r) as [s2 es]. cbn in H. discriminate.
     - cbn [sess_step] in *. destruct (feed T opn (s_rx s) d) as [r1 o1].
       specialize (IH (mkSess r1 (s_tx s))).
       destruct (sess_run F T opn _ r) as [s2 es]. cbn [fst snd forallb accepted_ev andb] in *.
@@ -105,9 +105,12 @@ Section SessProofs.
     cbn [sess_run]. destruct o as [p|d| | |]; cbn [sess_step s_rx s_tx feed].
     - destruct (send F tx p) as [x| | |].
       + specialize (IH (snd x)). destruct (sess_run F T opn (mkSess Dead (snd x)) r) as [s2 es]. exact IH.
-      + specialize (IH tx). destruct (sess_run F T opn (mkSess Dead tx) r) as [s2 es]. exact IH.
-      + specialize (IH tx). destruct (sess_run F T opn (mkSess Dead tx) r) as [s2 es]. exact IH.
-      + specialize (IH tx). destruct (sess_run F T opn (mkSess Dead tx) r) as [s2 es]. exact IH.
+      + specialize (IH (N.max tx ctr_limit)).
+        destruct (sess_run F T opn (mkSess Dead (N.max tx ctr_limit)) r) as [s2 es]. exact IH.
+      + specialize (IH (N.max tx ctr_limit)).
+        destruct (sess_run F T opn (mkSess Dead (N.max tx ctr_limit)) r) as [s2 es]. exact IH.
+      + specialize (IH (N.max tx ctr_limit)).
+        destruct (sess_run F T opn (mkSess Dead (N.max tx ctr_limit)) r) as [s2 es]. exact IH.
     - specialize (IH tx). destruct (sess_run F T opn (mkSess Dead tx) r) as [s2 es]. exact IH.
     - specialize (IH tx). destruct (sess_run F T opn (mkSess Dead tx) r) as [s2 es]. exact IH.
     - specialize (IH tx). destruct (sess_run F T opn (mkSess Dead tx) r) as [s2 es]. exact IH.
